@@ -235,6 +235,7 @@ def _trace(col, ver, src):
     # own no-fall-through table is validated too
     byoff = {i.offset: i for i in bm.instructions(code)}
     seen_tr = set()
+    nev = [0]
     prev = [None]
     bad = []
 
@@ -244,6 +245,9 @@ def _trace(col, ver, src):
         frame.f_trace_opcodes = True
         frame.f_trace_lines = False
         if ev == "opcode":
+            nev[0] += 1
+            if nev[0] > 60000:
+                raise X.Budget()  # run-away loop without tape reads: inconclusive
             cur = frame.f_lasti
             p = prev[0]
             if p is not None and (p, cur) not in seen_tr:
@@ -283,6 +287,7 @@ def _trace(col, ver, src):
         log = []
         ns = dict(X.make_env(tape, log))
         prev[0] = None
+        nev[0] = 0
         out = None
         g = types.FunctionType(code, ns, "f")
         old = sys.gettrace()
